@@ -4,6 +4,7 @@
 # applies and compiles, the pinned suite passes with it, the demonstration
 # fails with it and passes without it.
 wt="$1"; n="$2"
+[ -n "$wt" ] && [ -d "$wt/.git" -o -f "$wt/.git" ] && [ "$(cd "$wt" && pwd)" != "/verif" ] && [ "$(cd "$wt" && pwd)" != "/repo" ] || { echo "usage: seedconfirm.sh <scratch worktree> <n>"; exit 2; }
 export GOFLAGS=-mod=mod GOPROXY=off; unset GOWORK
 cd "$wt" || exit 2
 git checkout -q -- . ; rm -f zygo/seed_demo*_test.go
